@@ -213,16 +213,17 @@ Record scanned (ser : str) (se hs he : nat) (scheme mid host rest : str) : Prop 
   sc_hs : hs = length (scheme ++ COLON :: mid);
   sc_he : he = (hs + length host)%nat;
   sc_scheme : forallb scheme_char scheme = true;
+  sc_scheme_ne : scheme <> [];
   sc_mid : all_ascii mid = true;
   sc_host : all_ascii host = true;
   sc_rest : starts_char rest }.
 
 Lemma after_double_slash_scanned scheme input sp ser se hs he :
-  forallb scheme_char scheme = true ->
+  forallb scheme_char scheme = true -> scheme <> [] ->
   after_double_slash idna (scheme ++ [COLON]) input sp (length scheme) = POk (ser, se, hs, he) ->
   exists mid host rest, scanned ser se hs he scheme mid host rest.
 Proof.
-  intros Hs. unfold after_double_slash.
+  intros Hs Hne. unfold after_double_slash.
   destruct (parse_userinfo ((scheme ++ [COLON]) ++ [SLASH; SLASH]) input sp) as [[s1 rem1]|] eqn:E1; [|discriminate].
   apply parse_userinfo_spec in E1 as (ui & -> & Hui).
   destruct (parse_host idna _ rem1 sp) as [[[s2 he2] rem2]|] eqn:E2; [|discriminate].
@@ -244,6 +245,15 @@ Proof.
   assert (Hs : forallb scheme_char scheme = true).
   { unfold parse_scheme in E. destruct (trim_input input) as [|c l]; [discriminate|].
     destruct (is_alpha c); [|discriminate]. apply scheme_loop_spec in E. apply E. }
+  assert (Hne : scheme <> []).
+  { unfold parse_scheme in E. destruct (trim_input input) as [|c l]; [discriminate|].
+    destruct (is_alpha c) eqn:Ea; [|discriminate]. cbn [scheme_loop] in E.
+    assert (Hc : N.eqb c COLON = false) by (unfold is_alpha, is_upper, is_lower, COLON in *; lia).
+    rewrite Hc in E.
+    destruct (is_lower c || is_digit c || N.eqb c PLUS || N.eqb c MINUS || N.eqb c DOT).
+    - destruct (scheme_loop l) as [[s' r']|]; [|discriminate]. inversion E. discriminate.
+    - destruct (is_upper c); [|discriminate].
+      destruct (scheme_loop l) as [[s' r']|]; [|discriminate]. inversion E. discriminate. }
   unfold parse_with_scheme. destruct (scheme_type_from scheme); [discriminate| |].
   - intros H. exists scheme. eapply after_double_slash_scanned; eauto.
   - unfold parse_non_special. destruct (split_double_slash rem) as [rest|].
@@ -252,6 +262,393 @@ Proof.
       exists scheme, [], [], (lower_str (encode_all rem)). constructor; auto.
       * rewrite <- app_assoc. reflexivity.
       * apply lower_starts. apply encode_all_starts.
+Qed.
+
+(* ------------------------------------------------------------------ RequestUrl *)
+Lemma scanned_assoc scheme mid host rest :
+  scheme ++ COLON :: mid ++ host ++ rest = (scheme ++ COLON :: mid) ++ host ++ rest.
+Proof. rewrite <- app_assoc. reflexivity. Qed.
+
+Lemma scanned_schema ser se hs he scheme mid host rest :
+  scanned ser se hs he scheme mid host rest -> slice ser 0 se = Ok scheme.
+Proof.
+  intros [-> -> _ _ Hs _ _ _ _].
+  apply scheme_chars_facts in Hs as [Ha _].
+  apply (slice_mid [] scheme (COLON :: mid ++ host ++ rest)).
+  - apply starts_char_ascii; [exact Ha|]. right. eexists; eexists; split; reflexivity.
+  - right. eexists; eexists; split; reflexivity.
+Qed.
+
+Lemma scanned_colon ser se hs he scheme mid host rest :
+  scanned ser se hs he scheme mid host rest -> find_byte COLON ser = Some se.
+Proof.
+  intros [-> -> _ _ Hs _ _ _ _].
+  apply scheme_chars_facts in Hs as [_ Hn].
+  rewrite find_byte_app_notin by exact Hn. cbn [find_byte]. rewrite N.eqb_refl. f_equal. lia.
+Qed.
+
+Lemma scanned_host ser se hs he scheme mid host rest :
+  scanned ser se hs he scheme mid host rest -> slice ser hs he = Ok host.
+Proof.
+  intros [-> _ -> -> _ _ _ Hh Hr]. rewrite scanned_assoc.
+  apply slice_mid; [|exact Hr]. apply starts_char_ascii; assumption.
+Qed.
+
+Lemma all_ascii_drop n s : all_ascii s = true -> all_ascii (drop n s) = true.
+Proof.
+  intros H. rewrite <- (take_drop n s) in H. rewrite all_ascii_app in H.
+  apply andb_true_iff in H. apply H.
+Qed.
+
+Lemma scanned_suffix ser se hs he scheme mid host rest a :
+  scanned ser se hs he scheme mid host rest -> (a <= length host)%nat ->
+  slice ser (hs + a) (hs + length host) = Ok (drop a host).
+Proof.
+  intros [-> _ -> _ _ _ _ Hh Hr] Ha. rewrite scanned_assoc.
+  rewrite <- (take_drop a host) at 1.
+  replace ((scheme ++ COLON :: mid) ++ (take a host ++ drop a host) ++ rest)
+    with (((scheme ++ COLON :: mid) ++ take a host) ++ drop a host ++ rest)
+    by (rewrite <- !app_assoc; reflexivity).
+  assert (L1 : (length (scheme ++ COLON :: mid) + a)%nat = length ((scheme ++ COLON :: mid) ++ take a host)).
+  { rewrite (app_length _ (take a host)). rewrite length_take_le by exact Ha. reflexivity. }
+  assert (L2 : (length (scheme ++ COLON :: mid) + length host)%nat
+               = (length ((scheme ++ COLON :: mid) ++ take a host) + length (drop a host))%nat).
+  { rewrite <- L1. unfold drop. rewrite skipn_length. lia. }
+  rewrite L1, L2. apply slice_mid; [|exact Hr].
+  apply starts_char_ascii; [apply all_ascii_drop; exact Hh|exact Hr].
+Qed.
+
+Definition parsed (ru : request_url) (scheme mid host rest : str) : Prop :=
+  scanned (ru_url ru) (ru_schema_end ru) (fst (ru_hostname_pos ru)) (snd (ru_hostname_pos ru))
+          scheme mid host rest /\ host <> [] /\ ru_domain ru = psl host.
+
+Lemma parse_url_parsed u ru :
+  parse_url idna psl u = Ok (Some ru) ->
+  scan idna u = Ok (POk (ru_url ru, ru_schema_end ru, fst (ru_hostname_pos ru), snd (ru_hostname_pos ru)))
+  /\ exists scheme mid host rest, parsed ru scheme mid host rest.
+Proof.
+  unfold parse_url. destruct (scan idna u) as [p|w] eqn:Es; [|discriminate]. cbn [rbind].
+  destruct p as [[[[ser se] hs] he]|e]; [|discriminate].
+  destruct (Nat.ltb hs he) eqn:L; [|discriminate].
+  unfold scan in Es. destruct (decode_utf8 u) as [cps|]; [|discriminate]. inversion Es as [Es'].
+  destruct (scan_chars_scanned _ _ _ _ _ Es') as (scheme & mid & host & rest & Hsc).
+  rewrite (scanned_host _ _ _ _ _ _ _ _ Hsc). cbn [rbind]. intros H; inversion H; subst; clear H. cbn.
+  split; [exact Es|]. exists scheme, mid, host, rest. split; [exact Hsc|]. split; [|reflexivity].
+  apply Nat.ltb_lt in L. destruct Hsc. intros ->. cbn in *. lia.
+Qed.
+
+Lemma parse_url_total u : valid_utf8 u -> exists o, parse_url idna psl u = Ok o.
+Proof.
+  unfold valid_utf8, parse_url, scan. destruct (decode_utf8 u) as [cps|]; [intros _|congruence]. cbn [rbind].
+  destruct (scan_chars idna cps) as [[[[ser se] hs] he]|e] eqn:Es; [|eexists; reflexivity].
+  destruct (Nat.ltb hs he); [|eexists; reflexivity].
+  destruct (scan_chars_scanned _ _ _ _ _ Es) as (scheme & mid & host & rest & Hsc).
+  rewrite (scanned_host _ _ _ _ _ _ _ _ Hsc). cbn [rbind]. eexists; reflexivity.
+Qed.
+
+Hypothesis Hpsl : psl_contract psl.
+
+Lemma parsed_schema ru scheme mid host rest : parsed ru scheme mid host rest -> ru_schema ru = Ok scheme.
+Proof. intros [H _]. unfold ru_schema. eapply scanned_schema; eauto. Qed.
+
+Lemma parsed_hostname ru scheme mid host rest : parsed ru scheme mid host rest -> ru_hostname ru = Ok host.
+Proof. intros [H _]. unfold ru_hostname. eapply scanned_host; eauto. Qed.
+
+(* the registrable domain the model computes: the suffix of the host chosen by the psl oracle *)
+Definition domain_of (host : str) : str := drop (fst (psl host)) host.
+
+Lemma parsed_domain ru scheme mid host rest :
+  parsed ru scheme mid host rest -> ru_domain_str ru = Ok (domain_of host).
+Proof.
+  intros (H & _ & Hd). unfold ru_domain_str, domain_of. rewrite Hd.
+  destruct (psl host) as [a b] eqn:E. destruct (Hpsl _ _ _ E) as (Hab & -> & _). cbn [fst snd].
+  eapply scanned_suffix; eauto.
+Qed.
+
+(* ------------------------------------------------------------------ from_detailed_parameters *)
+Lemma dot_suffixes_ascii s : all_ascii s = true -> exists l, dot_suffixes s = Ok l.
+Proof.
+  induction s as [|c r IH]; intros H; [eexists; reflexivity|].
+  unfold all_ascii in H. cbn [forallb] in H. apply andb_true_iff in H as [Hc Hr].
+  destruct (IH Hr) as [l Hl]. cbn [dot_suffixes]. destruct (N.eqb c DOT); [|eauto].
+  destruct r as [|b r']; [eexists; reflexivity|].
+  cbn [forallb] in Hr. apply andb_true_iff in Hr as [Hb _].
+  rewrite (ascii_not_cont b Hb), Hl. cbn [rbind]. eexists; reflexivity.
+Qed.
+
+Lemma fdp_total t u schema host src tp orig :
+  all_ascii src = true -> exists r, from_detailed_parameters hash tokenize t u schema host src tp orig = Ok r.
+Proof.
+  intros H. unfold from_detailed_parameters, source_hash_inputs.
+  destruct src as [|c r]; [cbn [rbind]; eexists; reflexivity|].
+  destruct (dot_suffixes_ascii _ H) as [l ->]. cbn [rbind]. eexists; reflexivity.
+Qed.
+
+Lemma parsed_host_ascii ru scheme mid host rest : parsed ru scheme mid host rest -> all_ascii host = true.
+Proof. intros [[] _]. assumption. Qed.
+
+(* ------------------------------------------------------------------ Request::new *)
+(* third-party flag and source hostname that Request::new hands to from_detailed_parameters *)
+Inductive source_view (s : str) (host : str) : str -> bool -> Prop :=
+| SrcUnparsable : parse_url idna psl s = Ok None -> source_view s host [] true
+| SrcParsed ps sc' mid' host' rest' :
+    parse_url idna psl s = Ok (Some ps) -> parsed ps sc' mid' host' rest' ->
+    source_view s host host' (negb (str_eqb (domain_of host') (domain_of host))).
+
+Lemma request_new_char u s t r :
+  Request_new idna psl hash tokenize u s t = Ok (Some r) ->
+  exists pu scheme mid host rest srchost tp,
+    parse_url idna psl u = Ok (Some pu) /\ parsed pu scheme mid host rest /\
+    source_view s host srchost tp /\
+    from_detailed_parameters hash tokenize t (ru_url pu) scheme host srchost tp u = Ok r.
+Proof.
+  unfold Request_new. destruct (parse_url idna psl u) as [[pu|]|w] eqn:Eu; cbn [rbind]; try discriminate.
+  destruct (parse_url_parsed _ _ Eu) as (_ & scheme & mid & host & rest & Hp).
+  rewrite (parsed_schema _ _ _ _ _ Hp), (parsed_hostname _ _ _ _ _ Hp).
+  destruct (parse_url idna psl s) as [[ps|]|w] eqn:Es; cbn [rbind]; try discriminate.
+  - destruct (parse_url_parsed _ _ Es) as (_ & sc' & mid' & host' & rest' & Hq).
+    rewrite (parsed_domain _ _ _ _ _ Hq), (parsed_domain _ _ _ _ _ Hp), (parsed_hostname _ _ _ _ _ Hq).
+    cbn [rbind].
+    destruct (from_detailed_parameters _ _ _ _ _ _ _ _ _) as [r'|w] eqn:Ef; cbn [rbind]; [|discriminate].
+    intros H; inversion H; subst r'. exists pu, scheme, mid, host, rest, host', (negb (str_eqb (domain_of host') (domain_of host))).
+    split; [reflexivity|]. split; [exact Hp|]. split; [eapply SrcParsed; eauto|exact Ef].
+  - destruct (from_detailed_parameters _ _ _ _ _ _ _ _ _) as [r'|w] eqn:Ef; cbn [rbind]; [|discriminate].
+    intros H; inversion H; subst r'. exists pu, scheme, mid, host, rest, [], true.
+    split; [reflexivity|]. split; [exact Hp|]. split; [apply SrcUnparsable; exact Es|exact Ef].
+Qed.
+
+Theorem request_new_total u s t :
+  valid_utf8 u -> valid_utf8 s -> exists o, Request_new idna psl hash tokenize u s t = Ok o.
+Proof.
+  intros Vu Vs. unfold Request_new.
+  destruct (parse_url_total u Vu) as [[pu|] Eu]; rewrite Eu; cbn [rbind]; [|eexists; reflexivity].
+  destruct (parse_url_parsed _ _ Eu) as (_ & scheme & mid & host & rest & Hp).
+  rewrite (parsed_schema _ _ _ _ _ Hp), (parsed_hostname _ _ _ _ _ Hp).
+  destruct (parse_url_total s Vs) as [[ps|] Es]; rewrite Es; cbn [rbind].
+  - destruct (parse_url_parsed _ _ Es) as (_ & sc' & mid' & host' & rest' & Hq).
+    rewrite (parsed_domain _ _ _ _ _ Hq), (parsed_domain _ _ _ _ _ Hp), (parsed_hostname _ _ _ _ _ Hq).
+    cbn [rbind].
+    destruct (fdp_total t (ru_url pu) scheme host host'
+                (negb (str_eqb (domain_of host') (domain_of host))) u (parsed_host_ascii _ _ _ _ _ Hq)) as [r ->].
+    cbn [rbind]. eexists; reflexivity.
+  - destruct (fdp_total t (ru_url pu) scheme host [] true u eq_refl) as [r ->].
+    cbn [rbind]. eexists; reflexivity.
+Qed.
+
+(* ------------------------------------------------------------------ fields of the built request *)
+Lemma fdp_fields t u schema host src tp orig r :
+  from_detailed_parameters hash tokenize t u schema host src tp orig = Ok r ->
+  exists inputs, source_hash_inputs src = Ok inputs /\
+    r = {| request_type_of := snd (scheme_flags schema t);
+           is_http := fst (fst (fst (scheme_flags schema t)));
+           is_https := snd (fst (fst (scheme_flags schema t)));
+           is_supported := snd (fst (scheme_flags schema t)); is_third_party := tp;
+           url := u; hostname := host; source_hostname_hashes := option_map (map hash) inputs;
+           url_lower_cased := lower_str u; request_tokens := tokenize (lower_str u) ++ [0];
+           original_url := orig |}.
+Proof.
+  unfold from_detailed_parameters. destruct (source_hash_inputs src) as [i|w]; [|discriminate].
+  cbn [rbind]. intros H; inversion H. exists i. split; reflexivity.
+Qed.
+
+Definition with_original (r : request) (o : str) : request :=
+  {| request_type_of := request_type_of r; is_http := is_http r; is_https := is_https r;
+     is_supported := is_supported r; is_third_party := is_third_party r; url := url r;
+     hostname := hostname r; source_hostname_hashes := source_hostname_hashes r;
+     url_lower_cased := url_lower_cased r; request_tokens := request_tokens r; original_url := o |}.
+
+Lemma fdp_original t u schema host src tp orig orig' r :
+  from_detailed_parameters hash tokenize t u schema host src tp orig = Ok r ->
+  from_detailed_parameters hash tokenize t u schema host src tp orig' = Ok (with_original r orig').
+Proof.
+  intros H. apply fdp_fields in H as (i & Hi & ->). unfold from_detailed_parameters. rewrite Hi.
+  reflexivity.
+Qed.
+
+(* ------------------------------------------------------------------ scheme flags *)
+Lemma scheme_flags_spec schema t :
+  let fl := scheme_flags schema t in
+  (fst (fst (fst fl)) = true <-> schema = S_HTTP) /\
+  (snd (fst (fst fl)) = true <-> schema = S_HTTPS \/ schema = []) /\
+  (snd (fst fl) = true <-> schema = [] \/ In schema supported_schemes) /\
+  (In schema websocket_schemes -> snd fl = RT_Websocket) /\
+  (~ In schema websocket_schemes -> snd fl = cpt_match_type t).
+Proof.
+  destruct schema as [|c0 s0]; cbn zeta.
+  { unfold scheme_flags. cbn [fst snd].
+    split; [split; intros H; discriminate|].
+    split; [split; [intros _; right; reflexivity|reflexivity]|].
+    split; [split; [intros _; left; reflexivity|reflexivity]|].
+    split; [intros [H|[H|[]]]; discriminate|reflexivity]. }
+  unfold scheme_flags. cbv iota beta zeta.
+  remember (c0 :: s0) as sch eqn:Es.
+  assert (Hne : sch <> []) by (subst; discriminate). cbn [fst snd].
+  unfold supported_schemes, websocket_schemes.
+  pose proof (str_eqb_eq sch S_HTTP) as E1. pose proof (str_eqb_eq sch S_HTTPS) as E2.
+  pose proof (str_eqb_eq sch S_WS) as E3. pose proof (str_eqb_eq sch S_WSS) as E4.
+  assert (D12 : S_HTTP <> S_HTTPS) by discriminate. assert (D13 : S_HTTP <> S_WS) by discriminate.
+  assert (D14 : S_HTTP <> S_WSS) by discriminate. assert (D23 : S_HTTPS <> S_WS) by discriminate.
+  assert (D24 : S_HTTPS <> S_WSS) by discriminate. assert (D34 : S_WS <> S_WSS) by discriminate.
+  destruct (str_eqb sch S_HTTP) eqn:B1; destruct (str_eqb sch S_HTTPS) eqn:B2;
+    destruct (str_eqb sch S_WS) eqn:B3; destruct (str_eqb sch S_WSS) eqn:B4; cbn [negb andb orb In];
+    repeat match goal with
+           | H : true = true <-> _ |- _ => pose proof (proj1 H eq_refl); clear H
+           | H : false = true <-> _ |- _ =>
+               let H' := fresh in assert (H' := fun x => Bool.diff_false_true (proj2 H x)); clear H
+           end;
+    try congruence; clear Es;
+    (repeat split; intros; try reflexivity; try congruence; try tauto;
+     repeat match goal with H : _ \/ _ |- _ => destruct H end; try congruence; try tauto;
+     try subst sch; try (exfalso; tauto); auto 10).
+Qed.
+
+(* ------------------------------------------------------------------ dot suffixes *)
+Lemma dot_suffix_cons c r x :
+  dot_suffix_of (c :: r) x <-> (c = DOT /\ x = r /\ r <> []) \/ dot_suffix_of r x.
+Proof.
+  unfold dot_suffix_of. split.
+  - intros ([|p pre] & H & Hx).
+    + cbn in H. inversion H; subst. left. auto.
+    + cbn in H. inversion H; subst. right. exists pre. auto.
+  - intros [(-> & -> & H)|(pre & -> & H)].
+    + exists []. auto.
+    + exists (c :: pre). auto.
+Qed.
+
+Lemma dot_suffix_nil x : ~ dot_suffix_of [] x.
+Proof. intros ([|p pre] & H & _); discriminate. Qed.
+
+Lemma dot_suffixes_spec s : forall l, dot_suffixes s = Ok l -> forall x, In x l <-> dot_suffix_of s x.
+Proof.
+  induction s as [|c r IH]; intros l H x.
+  - inversion H; subst. split; [intros []|intros Hx; exfalso; eapply dot_suffix_nil; eauto].
+  - cbn [dot_suffixes] in H. rewrite dot_suffix_cons. destruct (N.eqb c DOT) eqn:E.
+    + apply N.eqb_eq in E. destruct r as [|b r'].
+      * inversion H; subst. split; [intros []|].
+        intros [(_ & _ & Hn)|Hx]; [congruence|exfalso; eapply dot_suffix_nil; eauto].
+      * destruct (is_cont b); [discriminate|].
+        destruct (dot_suffixes (b :: r')) as [l'|w] eqn:El; [|discriminate]. cbn [rbind] in H.
+        inversion H; subst. cbn [In]. rewrite (IH l' eq_refl x). split.
+        -- intros [<-|Hx]; [left; repeat split; auto; discriminate|right; exact Hx].
+        -- intros [(_ & -> & _)|Hx]; [left; reflexivity|right; exact Hx].
+    + apply N.eqb_neq in E. rewrite (IH l H x). split; [auto|]. intros [(Hc & _)|Hx]; [congruence|exact Hx].
+Qed.
+
+(* ------------------------------------------------------------------ domain_of under the contract *)
+Lemma firstn_S_nth a : forall (h : str), (a < length h)%nat -> firstn (S a) h = firstn a h ++ [nth a h 0].
+Proof.
+  induction a as [|a IH]; intros [|x h] H; cbn [length] in H; try lia.
+  - reflexivity.
+  - change (x :: firstn (S a) h = x :: (firstn a h ++ [nth a h 0])). f_equal. apply IH. lia.
+Qed.
+
+Lemma domain_of_suffix host :
+  exists pre, host = pre ++ domain_of host /\ (pre = [] \/ exists p, pre = p ++ [DOT]).
+Proof.
+  unfold domain_of. destruct (psl host) as [a b] eqn:E. destruct (Hpsl _ _ _ E) as (Hab & -> & Hdot).
+  cbn [fst]. exists (take a host). split; [symmetry; apply take_drop|].
+  destruct Hdot as [->|Hd]; [left; reflexivity|].
+  destruct a as [|a]; [left; reflexivity|]. right.
+  exists (take a host). cbn [Nat.sub] in Hd. rewrite Nat.sub_0_r in Hd.
+  unfold take. rewrite <- Hd. apply firstn_S_nth. lia.
+Qed.
+
+(* ------------------------------------------------------------------ the property theorems *)
+Theorem host_is_slice u s t r :
+  Request_new idna psl hash tokenize u s t = Ok (Some r) ->
+  exists se hs he,
+    scan idna u = Ok (POk (url r, se, hs, he)) /\ (hs < he <= length (url r))%nat /\
+    slice (url r) hs he = Ok (hostname r) /\ all_ascii (hostname r) = true /\
+    original_url r = u /\ url_lower_cased r = lower_str (url r).
+Proof.
+  intros H. apply request_new_char in H as (pu & scheme & mid & host & rest & sh & tp & Eu & Hp & _ & Hf).
+  apply fdp_fields in Hf as (i & _ & ->). cbn [url hostname original_url url_lower_cased].
+  destruct (parse_url_parsed _ _ Eu) as (Hs & _).
+  exists (ru_schema_end pu), (fst (ru_hostname_pos pu)), (snd (ru_hostname_pos pu)).
+  split; [exact Hs|]. destruct Hp as (Hsc & Hne & _).
+  pose proof (scanned_host _ _ _ _ _ _ _ _ Hsc) as Hh. destruct Hsc.
+  repeat split; auto.
+  all: try (destruct host; [congruence|]; cbn [length] in *; lia).
+  all: try (rewrite sc_ser0, sc_he0, sc_hs0; rewrite !app_length; cbn [length]; rewrite !app_length; lia).
+Qed.
+
+Theorem scheme_flags_of_request u s t r :
+  Request_new idna psl hash tokenize u s t = Ok (Some r) ->
+  exists scheme se hs he,
+    scan idna u = Ok (POk (url r, se, hs, he)) /\ slice (url r) 0 se = Ok scheme /\ scheme <> [] /\
+    find_byte COLON (url r) = Some se /\
+    (is_supported r = true <-> In scheme supported_schemes) /\
+    (is_http r = true <-> scheme = S_HTTP) /\ (is_https r = true <-> scheme = S_HTTPS) /\
+    (In scheme websocket_schemes -> request_type_of r = RT_Websocket) /\
+    (~ In scheme websocket_schemes -> request_type_of r = cpt_match_type t).
+Proof.
+  intros H. apply request_new_char in H as (pu & scheme & mid & host & rest & sh & tp & Eu & Hp & _ & Hf).
+  apply fdp_fields in Hf as (i & _ & ->). cbn [url is_supported is_http is_https request_type_of].
+  destruct (parse_url_parsed _ _ Eu) as (Hs & _). destruct Hp as (Hsc & _ & _).
+  exists scheme, (ru_schema_end pu), (fst (ru_hostname_pos pu)), (snd (ru_hostname_pos pu)).
+  split; [exact Hs|]. split; [eapply scanned_schema; eauto|].
+  assert (Hne : scheme <> []) by (destruct Hsc; assumption). split; [exact Hne|].
+  split; [eapply scanned_colon; eauto|].
+  destruct (scheme_flags_spec scheme t) as (A & B & C & D & E).
+  repeat split; try tauto.
+  - intros X. apply C in X. tauto.
+  - intros X. apply B in X. tauto.
+Qed.
+
+Theorem third_party_iff u s t r :
+  Request_new idna psl hash tokenize u s t = Ok (Some r) ->
+  match parse_url idna psl s with
+  | Ok None => is_third_party r = true
+  | Ok (Some ps) =>
+      exists sh, ru_hostname ps = Ok sh /\ ru_domain_str ps = Ok (domain_of sh) /\
+                 (is_third_party r = true <-> domain_of sh <> domain_of (hostname r))
+  | Panic _ => False
+  end /\
+  exists pu, parse_url idna psl u = Ok (Some pu) /\ ru_domain_str pu = Ok (domain_of (hostname r)).
+Proof.
+  intros H. apply request_new_char in H as (pu & scheme & mid & host & rest & sh & tp & Eu & Hp & Hv & Hf).
+  apply fdp_fields in Hf as (i & _ & ->). cbn [is_third_party hostname].
+  split; [|exists pu; split; [exact Eu|eapply parsed_domain; eauto]].
+  destruct Hv as [Es|ps sc' mid' host' rest' Es Hq]; rewrite Es; [reflexivity|].
+  exists host'. split; [eapply parsed_hostname; eauto|]. split; [eapply parsed_domain; eauto|].
+  rewrite negb_true_iff. apply str_eqb_neq.
+Qed.
+
+Theorem preparsed_eq_new u s t r :
+  Request_new idna psl hash tokenize u s t = Ok (Some r) ->
+  exists sh, source_hostname_of idna psl s = Ok sh /\
+    Request_preparsed hash tokenize (url r) (hostname r) sh t (is_third_party r)
+    = Ok (with_original r (url r)).
+Proof.
+  intros H. apply request_new_char in H as (pu & scheme & mid & host & rest & sh & tp & Eu & Hp & Hv & Hf).
+  exists sh. split.
+  - unfold source_hostname_of. destruct Hv as [Es|ps sc' mid' host' rest' Es Hq]; rewrite Es; cbn [rbind]; [reflexivity|].
+    eapply parsed_hostname; eauto.
+  - pose proof (fdp_original _ _ _ _ _ _ _ (ru_url pu) _ Hf) as Hf'.
+    apply fdp_fields in Hf as (i & _ & ->). cbn [url hostname is_third_party] in *.
+    destruct Hp as (Hsc & _ & _). unfold Request_preparsed.
+    rewrite (scanned_colon _ _ _ _ _ _ _ _ Hsc), (scanned_schema _ _ _ _ _ _ _ _ Hsc). cbn [rbind].
+    exact Hf'.
+Qed.
+
+Theorem source_hashes_are_dot_suffixes u s t r :
+  Request_new idna psl hash tokenize u s t = Ok (Some r) ->
+  exists sh, source_hostname_of idna psl s = Ok sh /\
+    match source_hostname_hashes r with
+    | None => sh = []
+    | Some hs => sh <> [] /\ exists l, hs = map hash (sh :: l) /\ forall x, In x l <-> dot_suffix_of sh x
+    end.
+Proof.
+  intros H. apply request_new_char in H as (pu & scheme & mid & host & rest & sh & tp & Eu & Hp & Hv & Hf).
+  exists sh. split.
+  - unfold source_hostname_of. destruct Hv as [Es|ps sc' mid' host' rest' Es Hq]; rewrite Es; cbn [rbind]; [reflexivity|].
+    eapply parsed_hostname; eauto.
+  - apply fdp_fields in Hf as (i & Hi & ->). cbn [source_hostname_hashes].
+    unfold source_hash_inputs in Hi. destruct sh as [|c sh'].
+    + inversion Hi; subst. reflexivity.
+    + destruct (dot_suffixes (c :: sh')) as [l|w] eqn:El; [|discriminate]. cbn [rbind] in Hi.
+      inversion Hi; subst. cbn [option_map]. split; [discriminate|]. exists l. split; [reflexivity|].
+      apply dot_suffixes_spec. exact El.
 Qed.
 
 End WithOracles.
